@@ -131,6 +131,7 @@ class Loop(object):
         self.carried = {}       # key -> initial term
         self.iters = []
         self.stages = []        # lazy adaptors peeled off the source: (name, callable term)
+        self.enumerated = False
 
     def __repr__(self):
         return "<Loop %s %s over %s (%d ways)>" % (self.kind, self.id[-1:], (self.source or ("?",))[:2], len(self.iters))
@@ -205,6 +206,7 @@ class Evaluator(object):
         self.n_ends = 0
         self._prom = {}
         self.pure_targs = {}
+        self.enumerated = set()
         self.subst = {}        # fid -> {generic parameter name: type string in the root's vocabulary}
         self.inlined = set()   # keys of bodies evaluated in place
         self.modelled = set()  # names of modelled std functions met
@@ -304,6 +306,8 @@ class Evaluator(object):
         if t[0] == "agg" and t[1] == "adt" and t[2] == adt + "::" + variant:
             return t[3][i]
         if t[0] == "iternext" and variant == "Some":
+            if t[1] in self.enumerated:
+                return ("agg", "tuple", "tuple", (("index_of", t[1]), ("elem", t[1])), ())
             return ("elem", t[1])
         return ("field", ("variant", t, variant), str(i), adt)
 
@@ -383,7 +387,10 @@ class Evaluator(object):
                 elif t[0] == "agg" and t[1] in ("tuple", "adt", "closure") and e["i"] < len(t[3]):
                     t = t[3][e["i"]]
                 elif t[0] == "variant" and t[1][0] == "iternext" and t[2] == "Some":
-                    t = ("elem", t[1][1])
+                    lid = t[1][1]
+                    t = ("elem", lid)
+                    if lid in self.enumerated:
+                        t = ("agg", "tuple", "tuple", (("index_of", lid), ("elem", lid)), ())
                 else:
                     t = ("field", t, name, e.get("adt") or ("tuple" if e.get("tuple") else None))
             elif k == "index":
@@ -691,6 +698,16 @@ class Evaluator(object):
                 L.raw_source = args[0]
                 L.iter_ty = c.self_arg_s
                 L.elem = ("elem", L.id)
+                # `for (i, x) in it.enumerate()`: the loop is over `it`; what it yields is the pair (position, element)
+                src = args[0]
+                while src[0] == "call" and self.callee(src[1]) is not None and self.callee(src[1]).name == "into_iter" and not self.callee(src[1]).local and src[2]:
+                    src = src[2][0]
+                sc = self.callee(src[1]) if src[0] == "call" else None
+                L.enumerated = bool(sc is not None and sc.name == "enumerate" and sc.trait in ITER_TRAITS and not sc.local and src[2])
+                if L.enumerated:
+                    L.raw_source = src[2][0]
+                    L.iter_ty = None
+                    self.enumerated.add(L.id)
                 self.callees[site] = c
                 results = [("val", env, path, ("iternext", L.id))]
                 self.enum_of[("iternext", L.id)] = OPTION
